@@ -9,6 +9,7 @@ import (
 	"io"
 	"net"
 	"os"
+	"path/filepath"
 	"os/exec"
 	"strconv"
 	"strings"
@@ -630,6 +631,8 @@ type c15Pub struct {
 	sent    int64 // number of messages handed to Send (= index of the next one)
 	errV    atomic.Value // error of the send that ended run (read by the case while run is going)
 	w       atomic.Value // *c15Witness used for pacing
+	flvW    atomic.Value // *srv.HttpSub: the healthy HTTP-FLV witness of this stream (paced like the RTMP one)
+	flvBase int64        // message index minus the FLV witness's tag count when pacing on it began
 	maxPace time.Duration
 }
 
@@ -659,6 +662,13 @@ func (pb *c15Pub) run(stop chan struct{}, frame *int64, wg *sync.WaitGroup) {
 				for atomic.LoadInt64(&w.lastIdx) >= 0 && int64(n)-atomic.LoadInt64(&w.lastIdx) > 32 && time.Since(t0) < 10*time.Second {
 					time.Sleep(time.Millisecond)
 				}
+				// … and of the healthy HTTP-FLV witness (its queue has 64 entries like everybody's: a harness
+				// reader that falls behind on a loaded machine must not be mistaken for lal dropping data)
+				if f, _ := pb.flvW.Load().(*srv.HttpSub); f != nil {
+					for int64(n)-int64(f.NumTags())-atomic.LoadInt64(&pb.flvBase) > 32 && time.Since(t0) < 10*time.Second && !f.Closed() {
+						time.Sleep(time.Millisecond)
+					}
+				}
 				if d := time.Since(t0); d > pb.maxPace {
 					pb.maxPace = d
 				}
@@ -682,7 +692,101 @@ func (pb *c15Pub) run(stop chan struct{}, frame *int64, wg *sync.WaitGroup) {
 	}
 }
 
+
+// c15PublisherLeaves: an interleaved RTSP (or WebSocket-RTSP) player stops reading; once lal's
+// writer towards it is blocked the publisher goes away. RTSP command connections have no write
+// timeout, so only the liveness sweep can end the player - it must do so for a stream that has no
+// input any more as well.
+func c15PublisherLeaves(c *fw.Ctx, i int) {
+	base.LogicCheckSessionAliveIntervalSec = 2
+	rtsp.VerifSetCmdWriteChanSize(c15Queue)
+	root := filepath.Join(c.Scratch, fmt.Sprintf("c15pl-%d", i))
+	os.MkdirAll(root, 0755)
+	defer os.RemoveAll(root)
+	s, err := srv.Start(srv.Conf{RtmpGop: 1, Rtsp: true, WsRtsp: true, Api: true}, root)
+	if err != nil {
+		c.Inconclusive("server start: %v", err)
+		return
+	}
+	stopDone := make(chan struct{})
+	defer func() {
+		go func() { s.Stop(); close(stopDone) }()
+		select {
+		case <-stopDone:
+		case <-time.After(10 * time.Second):
+		}
+	}()
+	kind := []string{"rtsp", "wsrtsp"}[i%2]
+	c.Describe("a stalled %s player whose publisher leaves while lal's writer towards it is blocked", kind)
+	c.Cell("%s/stall/publisher-leaves", kind)
+	pb := &c15Pub{name: "a"}
+	pb.msgs = c15BuildStream(c, 1, 3000)
+	pb.ix = gen.NewIndex(pb.msgs)
+	pb.sentAt = make([]time.Time, len(pb.msgs))
+	pb.sendDur = make([]time.Duration, len(pb.msgs))
+	pb.pub, err = ref.StartRtmpPublisher(s.RtmpAddr(), "live", pb.name, 5*time.Second)
+	if err != nil {
+		c.Inconclusive("publisher: %v", err)
+		return
+	}
+	var frame int64
+	stopPub := make(chan struct{})
+	var pubWg sync.WaitGroup
+	pubWg.Add(1)
+	go pb.run(stopPub, &frame, &pubWg)
+	for atomic.LoadInt64(&frame) < 20 && pb.getErr() == nil {
+		time.Sleep(2 * time.Millisecond)
+	}
+	cl := &c15Client{plan: c15Plan{Kind: kind, Mode: "stall", Stream: "a", StallAt: 5000}, joinedFrame: -1, stalledFrame: -1, stopFrame: -1, quit: make(chan struct{}), done: make(chan struct{})}
+	addr := s.RtspAddr()
+	if kind == "wsrtsp" {
+		addr = fmt.Sprintf("127.0.0.1:%d", s.Ports.WsRtsp)
+	}
+	from := s.Notify.Len()
+	conn, err := c15DialSmall(addr)
+	if err != nil {
+		c.Inconclusive("dial: %v", err)
+		close(stopPub)
+		pubWg.Wait()
+		pb.pub.Close()
+		return
+	}
+	cl.conn = conn
+	cl.local = srv.Key(conn)
+	left, err := cl.handshake(s)
+	if err != nil {
+		c.Inconclusive("player handshake: %v", err)
+		conn.Close()
+		close(stopPub)
+		pubWg.Wait()
+		pb.pub.Close()
+		return
+	}
+	cl.add(left)
+	go cl.run(&frame)
+	// the player stalls after 5000 bytes; the kernel absorbs ≈2.8 MB (≈1 s at this rate), then lal's
+	// writer blocks and the 64-entry queue fills
+	time.Sleep(2200 * time.Millisecond)
+	close(stopPub)
+	pubWg.Wait()
+	pb.pub.Close()
+	tLeft := time.Now()
+	c.Eval(1)
+	_, stopped := s.Notify.Wait(3*2*time.Second+4*time.Second, from, func(e srv.Event) bool { return e.Kind == "sub_stop" && s.Notify.Match(e, cl.local) })
+	c.Count("stalled_players_after_publisher_left_judged", 1)
+	if !stopped {
+		c.Violate("not-disconnected/"+kind+"/publisher-left", fmt.Sprintf("a %s player that stopped reading was still subscribed %v after its publisher had left (liveness sweep every 2 s; the command connection has no write timeout, so nothing else will ever end it)", kind, time.Since(tLeft).Round(time.Second)), nil)
+	}
+	close(cl.quit)
+	conn.Close()
+	<-cl.done
+}
+
 func c15Run(c *fw.Ctx, i int) {
+	if n := map[bool]int{true: 18 * 8, false: 18}[c.Tier == "thorough"]; i >= n {
+		c15PublisherLeaves(c, i-n)
+		return
+	}
 	// odd cases: the write timeout (10 s) is longer than the liveness sweep (2 s), so it is the
 	// sweep that disposes a consumer whose writer is blocked; even cases: write timeout 1 s and a
 	// sweep that cannot fire during the run (60 s), so it must be the write timeout that closes it
@@ -827,6 +931,8 @@ func c15Run(c *fw.Ctx, i int) {
 		c.Inconclusive("witnesses did not start receiving")
 		return
 	}
+	atomic.StoreInt64(&pubs[0].flvBase, atomic.LoadInt64(&pubs[0].sent)-int64(flvW.NumTags()))
+	pubs[0].flvW.Store(flvW)
 	controlFrom := int(atomic.LoadInt64(&pubs[0].sent))
 	controlFromB := int(atomic.LoadInt64(&pubs[1].sent))
 	waitFrame(atomic.LoadInt64(&frame) + 200)
@@ -1410,12 +1516,12 @@ func init() {
 		ID: "C15",
 		NumCases: func(tier string, seed int64) int {
 			if tier == "thorough" {
-				return 18 * 8
+				return 18*8 + 8
 			}
-			return 18
+			return 18 + 2
 		},
 		Setup:       c15Setup,
-		Batches:     func(string) int { return 18 },
+		Batches:     func(string) int { return 20 },
 		CaseTimeout: func(string) time.Duration { return 3 * time.Minute },
 		Rule: "whole-server runs with write queues of 64, 63 or 61 entries (multi-part writes come in pairs: an odd capacity puts the queue-full instant between the parts), write timeouts of 1000 ms (even cases; closes a blocked writer first) or 10 000 ms (odd cases; the 2 s liveness sweep disposes it while its writer is blocked). Two RTMP publishers send tagged H.264+AAC frames (6–30 KB video, ≤313 B audio) at ≤500 frames/s to streams a and b; healthy RTMP and HTTP-FLV witnesses time-stamp every frame. k ∈ {1,4,16} consumers join over RTMP, HTTP-FLV, WS-FLV, HTTP-TS, RTSP interleaved and WS-RTSP and stop reading for good / read 4–32 KiB every 2–20 ms (0.2 … 16 MB/s against ≈3.4 MB/s published per stream) / stop for 0.3–2.5 s and resume (the kernel absorbs ≈2.8 MB ≈ 0.9 s before the 64-entry queue starts to fill), from a seeded byte offset (0 … 300 000); odd cases add four WebSocket consumers (WS-FLV, WS-RTSP) that stall for 1.2–3.7 s and then resume at full speed or read at 0.3–4 MB/s (below the publishing rate, so that the queue hovers around full). Oracles: (1) every frame published after the witnesses joined reaches them, in order, with latency, publisher send time and pacing wait ≤ 3 s (control window before the consumers join must be ≤ 0.5 s, else inconclusive); (2) a consumer that never reads again gets sub_stop within 4000 publisher frames (each ≥ 2 ms) of stalling and its socket reaches EOF; (3) all bytes a stalled consumer read parse with the reference HTTP/FLV/WebSocket/TS/RTMP-chunk/interleaved parsers, every audio/video unit is byte-identical to a published message and units are in publish order (gaps allowed), TS packets stay 188-aligned with known PIDs, every WS-RTSP frame holds exactly one interleaved packet, RTP sequence numbers only move forward; a trailing partial unit is accepted only on a connection the server closed. cell = protocol × plan × k.",
 		Assumptions: []string{"loopback TCP; the server-side send buffer is the kernel default (no hook), so the queue-full instants depend on kernel buffering", "delay bound 3 s and disconnect bound 2×(timeout+sweep)+3 s are this check's reading of 'a small bound'"},
